@@ -448,6 +448,7 @@ def _verify_body(eng, contract, target, mod, cname, node, res, seed, timeout_ms,
                         if mn.startswith(case.name + ':'):
                             add('%s/canary.%s' % (tname, mn), hyps0 + [g], mt, 'canary', expect='refuted-somewhere')
     # ---- discharge
+    failed = 0
     for name, item in agg.items():
         t1 = time.time()
         statuses = []
@@ -460,7 +461,7 @@ def _verify_body(eng, contract, target, mod, cname, node, res, seed, timeout_ms,
             if item['expect'] == 'refuted-somewhere' and 'refuted' in statuses:
                 break
             if item['expect'] == 'proved':
-                r = smt.prove(hyps, goal, timeout_ms=timeout_ms, seed=seed, both=both)
+                r = smt.prove(hyps, goal, timeout_ms=timeout_ms, seed=seed, both=both, quick_only=failed >= 2)
             else:
                 r = smt.refute_qf(hyps, goal, seed=seed)
             statuses.append(r['status'])
@@ -473,6 +474,8 @@ def _verify_body(eng, contract, target, mod, cname, node, res, seed, timeout_ms,
             st = 'proved' if all(s == 'proved' for s in statuses) else ('refuted' if 'refuted' in statuses else 'undecided')
         else:
             st = 'proved' if 'refuted' in statuses else ('vacuous' if all(s == 'proved' for s in statuses) else 'undecided')
+        if st != 'proved' and item['expect'] == 'proved':
+            failed += 1
         ob = {'name': name, 'status': st, 'kind': item['kind'], 'backend': '+'.join(sorted(backend)) or 'syntactic',
               'time_s': round(time.time() - t1, 4), 'paths': len(item['items']), 'tags': list(item['tags'])}
         if 'why' in item:
